@@ -241,7 +241,7 @@ class Mode:
                 quick = self._quick_refute(name, vg, ve, t)
                 if quick is not None:
                     return quick
-            alg.DEADLINE[0] = time.time() + (40 if not getattr(self, "_slow", False) else 3)
+            alg.DEADLINE[0] = time.time() + (180 if not getattr(self, "_slow", False) else 3)  # generous: passing comparisons take seconds
             try:
                 ok = alg.v_equal(vg, ve)
             except alg.Undecided as e_:
@@ -344,7 +344,7 @@ class Mode:
                 return None
             return self._rec(name, "failed", "numeric-point+z3", time.time() - t, cex={"env": real, "diff": P.LAST_DIFF[0]},
                              detail="differs at a concrete point of a feasible path (a value-dependent branch in the code)")
-        cex = find_counterexample(vg, ve, self.used, tries=1)
+        cex = find_counterexample(vg, ve, self.used, tries=0.25)  # ONE point
         if cex is None:
             return None
         return self._rec(name, "failed", "numeric-point", time.time() - t, cex=cex, got=cex.get("got"), exp=cex.get("exp"),
@@ -611,7 +611,7 @@ def find_counterexample(vg, ve, used, tries=12, seed=None):
         if C.kinds[s] in ("real", "pos", "opq") and name != "pi" and s not in C.boysinfo \
                 and not any(t == s for t, _ in C.logs):
             allsyms[name] = C.kinds[s]
-    for _ in range(tries * 4):
+    for _ in range(max(1, int(tries * 4))):
         env = random_env(allsyms, rng)
         F = fields.MpField({}, 40)
         if getattr(C, "defs", None):
